@@ -231,13 +231,20 @@ func (e *Engine) harnessPrimitive(fr *frame, fn *ssa.Function, args []Value, g *
 		e.assume(Implies(g, Ule(l, c64(int64(n)))))
 		return &StrV{Len: l, Data: a, Max: n}, true
 	case "vAssume":
-		e.assume(Implies(g, args[0].(*Term)))
+		c := args[0].(*Term)
+		e.assume(Implies(g, c))
+		if g.IsTrue() {
+			e.addGlobalLits(c)
+		}
 		return nil, true
 	case "vAssert":
 		label := constStrArg(args[1])
-		c := args[0].(*Term)
+		c := fr.ctx(args[0].(*Term), g)
 		e.oblige("assert", label, And(g, Not(c)), pos, fr.fn.String())
-		e.assume(Implies(g, c))
+		e.assumeFact(Implies(g, c))
+		if g.IsTrue() {
+			e.addGlobalLits(c)
+		}
 		return nil, true
 	case "vReach":
 		e.oblige("reach", constStrArg(args[0]), g, pos, fr.fn.String())
@@ -686,7 +693,7 @@ func (e *Engine) blocked(fr *frame, g *Term, what string, pos token.Pos) {
 		return
 	}
 	e.oblige("blocked", what, g, pos, fr.fn.String())
-	e.assume(Not(g))
+	e.assumeFact(Not(g))
 }
 
 func (e *Engine) chanSend(fr *frame, c *ChanV, v Value, g *Term, pos token.Pos) {
@@ -843,4 +850,14 @@ func (e *Engine) posStr(p token.Pos) string {
 	}
 	pp := e.fset.Position(p)
 	return fmt.Sprintf("%s:%d", shortPath(pp.Filename), pp.Line)
+}
+
+func (e *Engine) addGlobalLits(c *Term) {
+	if e.globalLits == nil {
+		e.globalLits = map[int]bool{}
+	}
+	for k, v := range guardLits(c) {
+		e.globalLits[k] = v
+	}
+	e.globalLitV++
 }
